@@ -45,23 +45,26 @@ type Obligation struct {
 // VCHash identifies the verification condition (hypotheses, path condition, goal and parts) independently of term
 // numbering: two runs that generate the same condition get the same hash.
 func (o *Obligation) VCHash() string {
-	var hs []string
-	for _, h := range o.Hyps {
-		hs = append(hs, h.StructHash())
+	c := newCanonHasher()
+	goal, pc := "", ""
+	if o.Goal != nil {
+		goal = c.hash(o.Goal)
 	}
-	sort.Strings(hs)
-	ps := []string{}
-	for _, p := range o.Parts {
-		ps = append(ps, p.StructHash())
+	if o.PC != nil {
+		pc = c.hash(o.PC)
+	}
+	var ps, hs []string
+	for _, p := range sortByCoarse(o.Parts) {
+		ps = append(ps, c.hash(p))
+	}
+	for _, h := range sortByCoarse(o.Hyps) {
+		hs = append(hs, c.hash(h))
 	}
 	sort.Strings(ps)
-	pc, goal := "", ""
-	if o.PC != nil {
-		pc = o.PC.StructHash()
-	}
-	if o.Goal != nil {
-		goal = o.Goal.StructHash()
-	}
+	sort.Strings(hs)
+	// Facts attached to sub-terms (type ranges, allocation bounds, injectivity instances of the string ranking) are
+	// left out: they are a function of the terms they are attached to, and which instances a query carries depends
+	// on what else was verified earlier in the same run.
 	sum := sha256.Sum256([]byte(strings.Join(hs, ",") + "|" + pc + "|" + goal + "|" + strings.Join(ps, ",")))
 	return hex.EncodeToString(sum[:12])
 }
